@@ -461,6 +461,14 @@ def oracle(op, out):
                         f"to a {bs}-byte buffer (ValueError)")
             if r != exp:
                 return f"upload returned {r}, the server holds {exp}"
+    # one initiate per transfer: once a transfer has been initiated the next legal frames are its segments
+    reqs = [] if parts[1] == "-" else parts[1].split(",")
+    n_init_d = sum(1 for f in reqs if int(f[:2], 16) & 0xE0 == 0x20)
+    n_init_u = sum(1 for f in reqs if int(f[:2], 16) & 0xE0 == 0x40)
+    n_d = sum(1 for x in xfers if x[0] == "d")
+    if all(r.startswith("ok") for r in results) and (n_init_d != n_d or n_init_u != len(xfers) - n_d):
+        return (f"the client emitted an illegal request frame: initiate-out-of-step: {n_init_d} download and {n_init_u} "
+                f"upload initiate frames for {n_d} download(s) and {len(xfers) - n_d} upload(s)")
     got = parts[3]
     if got != ("&".join(exp_commits) if exp_commits else "-"):
         return f"server committed {got}, the caller wrote {'&'.join(exp_commits) or '-'}"
